@@ -33,6 +33,8 @@ THEOREMS = {
     "C16": ["split_partition", "random_split_partition", "batches_cover_once", "stats_additive", "min_le_mean_le_max",
             "evaluator_count_total", "evaluator_ordered", "getStats_count_sum"],
     "C17": ["rejected_noop", "train_rejected_noop", "query_rejected_noop", "rejected_then_continue"],
+    "C18": ["series_disambiguation_fit", "series_disambiguation_predict", "column_roundtrip", "caller_cells_untouched", "arms_by_value"],
+    "C19": ["copy_bisimilar", "copy_independent", "copy_equal", "shared_copy_counterexample", "noninterference_private"],
     "C20": ["fit_perm", "partialFit_perm", "fitRec_perm", "rowsOf_perm", "shift_greedy", "shift_ucb", "shift_softmax_invariant",
             "addXty_scale", "gram_ignores_rewards", "listMax_shift"],
 }
@@ -55,6 +57,8 @@ IMPORTS = {
     "C15": ["MabModel.Props.C15"],
     "C16": ["MabModel.Props.C16"],
     "C17": ["MabModel.Props.C17"],
+    "C18": ["MabModel.Props.C18"],
+    "C19": ["MabModel.Props.C19"],
     "C20": ["MabModel.Props.C20"],
 }
 
